@@ -265,7 +265,7 @@ func runC11(c *Ctx, phase string) {
 			continue
 		}
 		r := gen.NewRand(c.Seed, 0xC11C, uint64(i))
-		if c.Thorough() {
+		if c.Thorough() || true { // the complete id x id product is cheap enough for the quick tier
 			for _, b := range ids {
 				judgeCross(c, a, b, r)
 			}
